@@ -169,7 +169,14 @@ def gen_txn_case(rng, hostile_p):
             cc = com if rng.random() < 0.8 else rng.choice(COMMODITIES)
             ops.append("(charge %s %s)" % (enc(cp), amt_sx(ca, cc)))
             info["charges"].append((cp, ca, cc))
-    rng.shuffle(ops) if rng.random() < 0.2 and not any(o.startswith("(chargeni") for o in ops) else None
+    if rng.random() < 0.2 and not any(o.startswith("(chargeni") for o in ops):
+        # builder calls in another order; comments and charges keep the order of their calls
+        rng.shuffle(ops)
+        info["comments"] = [dec(o[len("(comment "):-1]) for o in ops if o.startswith("(comment ")]
+        by_payee = {}
+        for c in info["charges"]:
+            by_payee.setdefault(enc(c[0]), []).append(c)
+        info["charges"] = [by_payee[o.split(" ")[1]].pop(0) for o in ops if o.startswith("(charge ")]
     line = "(txn %s %s %s %s (%s) %s)" % (date_sx(date), enc(payee), amt_sx(amount, com), enc(src),
                                          " ".join("(%s %d)" % (enc(c), p) for c, p in sorted(prec.items())), " ".join(ops))
     return line, info
@@ -651,6 +658,7 @@ def run(chk):
     if still or f15:
         what = ("statement text outside CleanText is printed verbatim and does not read back: %s; %d further cases of the same class in the "
                 "hostile streams (e.g. %s)" % ("; ".join("%s -> %s" % (n, d[0]) for n, d in still), len(f15), f15[0][1] if f15 else "-"))
+        what = what.replace("\r", "\\r").replace("\n", "\\n")
         if known:
             chk.known_finding("F15", what)
         else:
